@@ -172,6 +172,9 @@ func genC14(r *Rng, idx int, tier string) *World {
 			switch r.Intn(9) {
 			case 0:
 				host += ":8080"
+			case 6:
+				// every digit, including the two ends of the range, and the bytes just outside it
+				host += pick(r, []string{":0", ":9", ":09", ":65535", ":1900", ":" + fmt.Sprint(r.Intn(100000)), ":8/", ":/", ":8;"})
 			case 1:
 				host += ":"
 			case 2:
@@ -799,6 +802,10 @@ func execC13(w *World, st *Stats) (*Violation, RunInfo) {
 			twins[winner] = tw
 		}
 		want := Serve(tw.g, *op.Req, nil, nil)
+		if got.Router != winner && got.Kind != KGroup404 {
+			// Route.RouterName is documented as the name of the router that serves the request
+			return mk("first-acceptor", "wrong-router", fmt.Sprintf("first acceptor is %s but the handler that ran saw router name %q (%s)", winner, got.Router, obsKey13(&got))), info
+		}
 		if obsKey13(&got) != obsKey13(&want) {
 			sig := "differs-from-standalone"
 			if got.Router != winner {
